@@ -13,7 +13,7 @@ from fickling.exception import UnsafeFileError  # noqa: E402
 import fickling.loader as loader  # noqa: E402
 
 MODULES = ["builtins", "__builtin__", "os", "posix", "subprocess", "sys", "socket", "shutil", "urllib.request", "torch.hub", "dill", "code",
-           "collections", "operator", "torch", "torch.storage", "numpy.testing._private.utils", "foo", "foo.bar", "__main__", "pickle", "numpy"]
+           "collections", "operator", "torch", "torch.storage", "numpy.testing._private.utils", "foo", "foo.bar", "__main__", "pickle", "numpy", "torch.serialization", "operator.impl", "os.path", "numpy.testing"]
 ATTRS = ["eval", "exec", "open", "compile", "load", "loads", "getitem", "attrgetter", "system", "OrderedDict", "_load_from_bytes", "runstring",
          "getattr", "__import__", "x"]
 progs = []
